@@ -20,10 +20,14 @@
 package main
 
 import (
+	"bytes"
+	"crypto/sha256"
+	"encoding/hex"
 	"encoding/json"
 	"flag"
 	"fmt"
 	"go/ast"
+	"go/printer"
 	"go/token"
 	"go/types"
 	"os"
@@ -47,6 +51,7 @@ type Site struct {
 	Detail     []string `json:"detail"`
 	Callees    []string `json:"callees"`
 	SortKeys   []string `json:"sortKeys"`
+	KeyDerivs  []string `json:"keyDerivs"`
 	OutsideRun bool     `json:"outsideRun"`
 	Leak       string   `json:"leak,omitempty"` // for leakCall: the leak function called
 	fnKey      string
@@ -83,6 +88,7 @@ type extractor struct {
 	sites   []*Site
 	impure  []*Fact
 	sorts   []*Fact
+	shallow []*Fact
 	leaks   map[string]bool // fn keys of module leak functions
 }
 
@@ -107,9 +113,10 @@ func main() {
 	x.findSites()
 	x.findLeakCalls()
 	x.findFacts()
+	x.findShallowCopies()
 	x.finish()
 	if *jsonOut != "" {
-		blob, _ := json.MarshalIndent(map[string]any{"sites": x.sites, "impure": x.impure, "sorts": x.sorts}, "", " ")
+		blob, _ := json.MarshalIndent(map[string]any{"sites": x.sites, "impure": x.impure, "sorts": x.sorts, "shallowCopies": x.shallow}, "", " ")
 		if err := os.WriteFile(*jsonOut, blob, 0o644); err != nil {
 			fail("%v", err)
 		}
@@ -405,7 +412,7 @@ func (x *extractor) findSites() {
 				c := &classifier{x: x, p: p, fn: fi, parents: parents, file: f}
 				eff := c.classifyLoop(rs)
 				s := &Site{File: file, Line: line, Func: fi.name, Kind: "range", MapType: types.TypeString(t, shortQual),
-					PtrKey: addressLike(mt.Key()), Effects: eff.tags(), Detail: eff.details(), Callees: c.calleeList(), SortKeys: eff.sortKeys(),
+					PtrKey: addressLike(mt.Key()), Effects: eff.tags(), Detail: eff.details(), Callees: c.calleeList(), SortKeys: eff.sortKeys(), KeyDerivs: eff.keyDerivs(),
 					OutsideRun: !x.reach[fi.key], fnKey: fi.key}
 				x.sites = append(x.sites, s)
 				for _, e := range eff {
@@ -565,7 +572,7 @@ func (x *extractor) findLeakCalls() {
 					} else {
 						c := &classifier{x: x, p: p, fn: fi, parents: parents, file: f}
 						eff := c.classifyLeakCall(call)
-						s.Effects, s.Detail, s.Callees, s.SortKeys = eff.tags(), eff.details(), c.calleeList(), eff.sortKeys()
+						s.Effects, s.Detail, s.Callees, s.SortKeys, s.KeyDerivs = eff.tags(), eff.details(), c.calleeList(), eff.sortKeys(), eff.keyDerivs()
 						for _, e := range eff {
 							if e.tag == "collectReturn" && !x.leaks[fi.key] {
 								x.leaks[fi.key] = true
@@ -645,6 +652,161 @@ func (x *extractor) findFacts() {
 				return true
 			})
 		}
+	}
+}
+
+// findShallowCopies: the loop over the output languages in Pipeline.Run is order-insensitive only
+// because every language works on its own deep copy of the loaded schemas (Passes.Process →
+// Schemas.DeepCopy).  For every `DeepCopy` method of the module and every field of its receiver
+// whose type can hold another DeepCopy-able struct, the method must rebuild the field through a
+// recursive DeepCopy (or deepCopyValue) call; a field that is assigned, copy()'d or forgotten is
+// reported.  Syntactic and conservative: "deep" needs a DeepCopy/deepCopyValue call in the
+// `F: …` element of a composite literal or in a top-level statement that mentions `recv.F`.
+func (x *extractor) findShallowCopies() {
+	hasDeep := map[string]bool{} // named types with a DeepCopy method
+	type method struct {
+		fi   *fnInfo
+		recv *types.Named
+	}
+	var methods []method
+	for _, fi := range x.fns {
+		if fi.decl.Name.Name != "DeepCopy" || fi.decl.Recv == nil || fi.decl.Body == nil {
+			continue
+		}
+		obj, _ := fi.pkg.TypesInfo.Defs[fi.decl.Name].(*types.Func)
+		if obj == nil {
+			continue
+		}
+		rt := obj.Type().(*types.Signature).Recv().Type()
+		if p, ok := rt.(*types.Pointer); ok {
+			rt = p.Elem()
+		}
+		n, ok := rt.(*types.Named)
+		if !ok {
+			continue
+		}
+		hasDeep[n.Obj().Pkg().Path()+"."+n.Obj().Name()] = true
+		methods = append(methods, method{fi, n})
+	}
+	var holds func(t types.Type, depth int) bool
+	holds = func(t types.Type, depth int) bool {
+		if depth > 6 {
+			return false
+		}
+		switch v := t.(type) {
+		case *types.Named:
+			if v.Obj().Pkg() != nil && hasDeep[v.Obj().Pkg().Path()+"."+v.Obj().Name()] {
+				return true
+			}
+			if targs := v.TypeArgs(); targs != nil {
+				for i := 0; i < targs.Len(); i++ {
+					if holds(targs.At(i), depth+1) {
+						return true
+					}
+				}
+			}
+			if _, isStruct := v.Underlying().(*types.Struct); isStruct {
+				return false
+			}
+			return holds(v.Underlying(), depth+1)
+		case *types.Pointer:
+			return holds(v.Elem(), depth+1)
+		case *types.Slice:
+			return holds(v.Elem(), depth+1)
+		case *types.Array:
+			return holds(v.Elem(), depth+1)
+		case *types.Map:
+			return holds(v.Elem(), depth+1) || holds(v.Key(), depth+1)
+		}
+		return false
+	}
+	isDeepCall := func(n ast.Node) bool {
+		found := false
+		ast.Inspect(n, func(nd ast.Node) bool {
+			call, ok := nd.(*ast.CallExpr)
+			if !ok {
+				return !found
+			}
+			switch f := call.Fun.(type) {
+			case *ast.SelectorExpr:
+				if f.Sel.Name == "DeepCopy" {
+					found = true
+				}
+			case *ast.Ident:
+				if f.Name == "deepCopyValue" {
+					found = true
+				}
+			}
+			return !found
+		})
+		return found
+	}
+	sort.Slice(methods, func(i, j int) bool { return methods[i].fi.key < methods[j].fi.key })
+	for _, m := range methods {
+		st, ok := m.recv.Underlying().(*types.Struct)
+		if !ok {
+			continue
+		}
+		d := m.fi.decl
+		if len(d.Recv.List) != 1 || len(d.Recv.List[0].Names) != 1 {
+			continue
+		}
+		recvObj := m.fi.pkg.TypesInfo.Defs[d.Recv.List[0].Names[0]]
+		mentions := func(n ast.Node, field string) bool {
+			found := false
+			ast.Inspect(n, func(nd ast.Node) bool {
+				if sel, ok := nd.(*ast.SelectorExpr); ok && sel.Sel.Name == field {
+					if id, ok := sel.X.(*ast.Ident); ok && m.fi.pkg.TypesInfo.Uses[id] == recvObj {
+						found = true
+					}
+				}
+				return !found
+			})
+			return found
+		}
+		for i := 0; i < st.NumFields(); i++ {
+			f := st.Field(i)
+			if !holds(f.Type(), 0) {
+				continue
+			}
+			deep := false
+			ast.Inspect(d.Body, func(nd ast.Node) bool {
+				if kv, ok := nd.(*ast.KeyValueExpr); ok {
+					if k, ok := kv.Key.(*ast.Ident); ok && k.Name == f.Name() && isDeepCall(kv.Value) {
+						deep = true
+					}
+				}
+				return !deep
+			})
+			for _, stmt := range d.Body.List {
+				if _, isRet := stmt.(*ast.ReturnStmt); isRet {
+					continue // composite literals in the return are handled element-wise above
+				}
+				if as, ok := stmt.(*ast.AssignStmt); ok && len(as.Rhs) == 1 {
+					if _, isLit := unparenExpr(as.Rhs[0]).(*ast.CompositeLit); isLit {
+						continue
+					}
+				}
+				if mentions(stmt, f.Name()) && isDeepCall(stmt) {
+					deep = true
+				}
+			}
+			if !deep {
+				file, line := x.rel(d.Pos())
+				x.shallow = append(x.shallow, &Fact{File: file, Line: line, Func: m.fi.name, What: m.recv.Obj().Name() + "." + f.Name(),
+					OutsideRun: !x.reach[m.fi.key], fnKey: m.fi.key})
+			}
+		}
+	}
+}
+
+func unparenExpr(e ast.Expr) ast.Expr {
+	for {
+		p, ok := e.(*ast.ParenExpr)
+		if !ok {
+			return e
+		}
+		e = p.X
 	}
 }
 
@@ -731,6 +893,9 @@ func (x *extractor) finish() {
 	sort.SliceStable(x.sorts, func(i, j int) bool {
 		return less(x.sorts[i].File, x.sorts[i].Line, x.sorts[j].File, x.sorts[j].Line)
 	})
+	if x.shallow == nil {
+		x.shallow = []*Fact{}
+	}
 	for _, s := range x.sites {
 		if s.Effects == nil {
 			s.Effects = []string{}
@@ -744,7 +909,22 @@ func (x *extractor) finish() {
 		if s.SortKeys == nil {
 			s.SortKeys = []string{}
 		}
+		if s.KeyDerivs == nil {
+			s.KeyDerivs = []string{}
+		}
 	}
+}
+
+// declHash: sha256 (12 hex digits) of a function declaration printed without comments
+func (x *extractor) declHash(d *ast.FuncDecl) string {
+	d2 := *d
+	d2.Doc = nil
+	var b bytes.Buffer
+	if err := printer.Fprint(&b, x.fset, &d2); err != nil {
+		fail("print %s: %v", d.Name.Name, err)
+	}
+	sum := sha256.Sum256(b.Bytes())
+	return hex.EncodeToString(sum[:])[:12]
 }
 
 func leanStr(s string) string {
@@ -787,9 +967,9 @@ func (x *extractor) lean() string {
 		if s.Kind == "leakCall" {
 			kind = ".leakCall"
 		}
-		fmt.Fprintf(&b, "  { file := %s, func := %s, line := %d, kind := %s, effects := %s, callees := %s, sortKeys := %s, outsideRun := %v, ptrKey := %v }",
+		fmt.Fprintf(&b, "  { file := %s, func := %s, line := %d, kind := %s, effects := %s, callees := %s, sortKeys := %s, keyDerivs := %s, outsideRun := %v, ptrKey := %v }",
 			leanStr(s.File), leanStr(s.Func), s.Line, kind,
-			leanList(s.Effects, func(e string) string { return "." + e }), leanList(s.Callees, leanStr), leanList(s.SortKeys, leanStr), s.OutsideRun, s.PtrKey)
+			leanList(s.Effects, func(e string) string { return "." + e }), leanList(s.Callees, leanStr), leanList(s.SortKeys, leanStr), leanList(s.KeyDerivs, leanStr), s.OutsideRun, s.PtrKey)
 		if i+1 < len(x.sites) {
 			b.WriteString(",")
 		}
@@ -807,6 +987,14 @@ func (x *extractor) lean() string {
 	for i, f := range x.sorts {
 		fmt.Fprintf(&b, "  { file := %s, func := %s, what := %s, outsideRun := %v }", leanStr(f.File), leanStr(f.Func), leanStr(f.What), f.OutsideRun)
 		if i+1 < len(x.sorts) {
+			b.WriteString(",")
+		}
+		b.WriteString("\n")
+	}
+	b.WriteString("]\n\ndef shallowCopies : List Fact := [\n")
+	for i, f := range x.shallow {
+		fmt.Fprintf(&b, "  { file := %s, func := %s, what := %s, outsideRun := %v }", leanStr(f.File), leanStr(f.Func), leanStr(f.What), f.OutsideRun)
+		if i+1 < len(x.shallow) {
 			b.WriteString(",")
 		}
 		b.WriteString("\n")
